@@ -1,4 +1,962 @@
-import Bardolph.Model.Vm
-/-! # C03 — parameters are by-value locals hiding globals (theorems: see agent branch) -/
+import Bardolph.Model.Gen
+import Bardolph.Model.Sem
+import Bardolph.Proofs.VmSteps
+/-!
+# C03 — parameters are by-value locals hiding globals; return works from any depth
+
+All statements are for an arbitrary call-stack depth and an arbitrary number of enclosing
+loop frames.  Model pieces: `Vm` (`Frame`, `activation`, `putVariable`, `doReturn`, the
+`CTX`/`PARAM`/`JSR` handlers), `Gen.genCall` (the calling sequence the parser emits) and `Sem`
+(`callRoutine`).  The tie of `Vm`/`Gen` to the Python code is the correspondence run by the
+harness; what is proved here is about the model.
+-/
 namespace Bardolph
+open Vm VmSteps
+
+/-! ## frames -/
+
+def Vm.Frame.isLoop : Frame → Bool
+  | .loop _ _ => true
+  | _ => false
+
+/-- a stack segment that consists of loop frames only (any number, including none) -/
+def LoopsOnly (l : List Frame) : Prop := ∀ f ∈ l, f.isLoop = true
+
+instance (l : List Frame) : Decidable (LoopsOnly l) := by unfold LoopsOnly; infer_instance
+
+theorem LoopsOnly.nil : LoopsOnly [] := by simp [LoopsOnly]
+
+theorem LoopsOnly.cons {f : Frame} {l : List Frame} (h : LoopsOnly (f :: l)) :
+    (∃ vars ht, f = .loop vars ht) ∧ LoopsOnly l := by
+  constructor
+  · have := h f (by simp)
+    cases f <;> simp_all [Frame.isLoop]
+  · intro g hg; exact h g (by simp [hg])
+
+theorem owner_loops (loops : List Frame) (f : Frame) (rest : List Frame) (hl : LoopsOnly loops)
+    (hf : f.isLoop = false) : State.putVariable.owner (loops ++ f :: rest) = some f := by
+  induction loops with
+  | nil => cases f <;> simp_all [State.putVariable.owner, Frame.isLoop]
+  | cons g gs ih =>
+    obtain ⟨⟨vars, ht, rfl⟩, hgs⟩ := hl.cons
+    simpa [State.putVariable.owner] using ih hgs
+
+theorem owner_only_loops (loops : List Frame) (hl : LoopsOnly loops) :
+    State.putVariable.owner loops = none := by
+  induction loops with
+  | nil => rfl
+  | cons g gs ih =>
+    obtain ⟨⟨vars, ht, rfl⟩, hgs⟩ := hl.cons
+    simpa [State.putVariable.owner] using ih hgs
+
+theorem activation_loops (loops : List Frame) (locals : Dict) (ret : Nat) (rest : List Frame)
+    (hl : LoopsOnly loops) : activation (loops ++ .call locals ret :: rest) = some locals := by
+  induction loops with
+  | nil => rfl
+  | cons g gs ih =>
+    obtain ⟨⟨vars, ht, rfl⟩, hgs⟩ := hl.cons
+    simpa [activation] using ih hgs
+
+theorem activation_only_loops (loops : List Frame) (hl : LoopsOnly loops) :
+    activation loops = none := by
+  induction loops with
+  | nil => rfl
+  | cons g gs ih =>
+    obtain ⟨⟨vars, ht, rfl⟩, hgs⟩ := hl.cons
+    simpa [activation] using ih hgs
+
+theorem setActivation_loops (loops : List Frame) (locals d : Dict) (ret : Nat) (rest : List Frame)
+    (hl : LoopsOnly loops) :
+    setActivation (loops ++ .call locals ret :: rest) d = loops ++ .call d ret :: rest := by
+  induction loops with
+  | nil => rfl
+  | cons g gs ih =>
+    obtain ⟨⟨vars, ht, rfl⟩, hgs⟩ := hl.cons
+    simpa [setActivation] using ih hgs
+
+theorem popLoops_loops (loops : List Frame) (f : Frame) (rest : List Frame) (hl : LoopsOnly loops)
+    (hf : f.isLoop = false) : popLoops (loops ++ f :: rest) = f :: rest := by
+  induction loops with
+  | nil => cases f <;> simp_all [popLoops, Frame.isLoop]
+  | cons g gs ih =>
+    obtain ⟨⟨vars, ht, rfl⟩, hgs⟩ := hl.cons
+    simpa [popLoops] using ih hgs
+
+/-- the height `unwind_loops` restores is the one recorded by the OUTERMOST loop frame -/
+theorem unwindHeight_loops (inner : List Frame) (vars : List (LoopVar × Val)) (h : Nat)
+    (f : Frame) (rest : List Frame) (hl : LoopsOnly inner) (hf : f.isLoop = false) :
+    unwindHeight (inner ++ .loop vars h :: f :: rest) = some h := by
+  induction inner with
+  | nil => cases f <;> simp_all [unwindHeight, Frame.isLoop]
+  | cons g gs ih =>
+    obtain ⟨⟨vars', ht, rfl⟩, hgs⟩ := hl.cons
+    simp [unwindHeight, ih hgs]
+
+/-! ## dictionaries -/
+
+theorem Dict.get_cons (k : String) (x : Val) (d : Dict) (n : String) :
+    Dict.get ((k, x) :: d) n = if k = n then some x else Dict.get d n := by
+  by_cases h : k = n
+  · simp [Dict.get, h]
+  · have hb : (k == n) = false := by simpa using h
+    simp [Dict.get, h, hb]
+
+theorem Dict.put_cons (k : String) (x : Val) (d : Dict) (n : String) (v : Val) :
+    Dict.put ((k, x) :: d) n v = if k = n then (k, v) :: (if d.any (·.1 == n) then Dict.put d n v else d)
+      else (k, x) :: Dict.put d n v := by
+  by_cases h : k = n
+  · subst h
+    by_cases h2 : d.any (·.1 == k) = true
+    · simp [Dict.put, h2]
+    · simp only [Bool.not_eq_true] at h2
+      simp [Dict.put, h2]
+      conv => rhs; rw [← List.map_id d]
+      apply List.map_congr_left
+      intro p hp
+      have := List.any_eq_false.1 h2 p hp
+      have hne : ¬ p.1 = k := by simpa using this
+      simp [hne]
+  · by_cases h2 : d.any (·.1 == n) = true
+    · simp [Dict.put, h2, h]
+    · simp [Dict.put, h2, h]
+
+theorem Dict.get_put_self (d : Dict) (n : String) (v : Val) : (d.put n v).get n = some v := by
+  induction d with
+  | nil => simp [Dict.put, Dict.get]
+  | cons kv d ih =>
+    obtain ⟨k, x⟩ := kv
+    rw [Dict.put_cons]
+    by_cases hk : k = n
+    · simp [hk, Dict.get_cons]
+    · simp [hk, Dict.get_cons, ih]
+
+theorem Dict.get_put_other (d : Dict) (n m : String) (v : Val) (hm : m ≠ n) :
+    (d.put n v).get m = d.get m := by
+  induction d with
+  | nil =>
+    have : ¬ n = m := fun h => hm h.symm
+    simp [Dict.put, Dict.get, this]
+  | cons kv d ih =>
+    obtain ⟨k, x⟩ := kv
+    rw [Dict.put_cons]
+    by_cases hk : k = n
+    · subst hk
+      have : ¬ k = m := fun h => hm h.symm
+      simp only [if_true, Dict.get_cons, this, if_false]
+      split
+      · exact ih
+      · rfl
+    · simp [hk, Dict.get_cons, ih]
+
+theorem Dict.has_iff_get (d : Dict) (n : String) : d.has n = true ↔ ∃ v, d.get n = some v := by
+  induction d with
+  | nil => simp [Dict.has, Dict.get]
+  | cons kv d ih =>
+    obtain ⟨k, x⟩ := kv
+    rw [Dict.get_cons]
+    by_cases h : k = n
+    · simp [Dict.has, h]
+    · simp only [Dict.has] at ih
+      simp [Dict.has, h, ih]
+
+/-! ## 1. arguments are evaluated in the caller's scope -/
+
+/-- **args_in_caller_scope.**  Between `CTX` and `JSR` the new frame is only being filled: no
+name resolves to it.  Whatever the parameter dictionary `ps` of the callee holds — in
+particular a parameter with the same name as a variable used in a later argument — every
+variable and register read gives what it gave before `CTX`. -/
+theorem C03_args_in_caller_scope (s : State) (ps : Dict) (n : String) :
+    ({ s with stack := .pending ps :: s.stack }).getVariable n = s.getVariable n := rfl
+
+theorem C03_args_in_caller_scope_read (s : State) (ps : Dict) (src : Src)
+    (h : ∀ l, src ≠ .loopVar l) :
+    ({ s with stack := .pending ps :: s.stack }).read src = s.read src := by
+  cases src with
+  | loopVar l => exact absurd rfl (h l)
+  | _ => rfl
+
+/-- the same during the whole argument phase: the pending dictionary, the `result` register,
+`pc` and the evaluation stack do not enter variable lookup -/
+theorem getVariable_pending (s t : State) (ps : Dict) (n : String)
+    (hst : t.stack = .pending ps :: s.stack) (hg : t.globals = s.globals)
+    (hc : t.constants = s.constants) : t.getVariable n = s.getVariable n := by
+  simp [State.getVariable, hst, hg, hc, activation]
+
+/-! ## 3. assignment resolution under any number of loop frames -/
+
+/-- **param_private.**  Assigning to a parameter (or an existing local) of the current call,
+under any number of loop frames, replaces that entry of the call's own dictionary and nothing
+else: the caller's frames `rest`, the globals — even a global of the same name — and every
+other component of the state are untouched. -/
+theorem C03_param_private (s : State) (loops : List Frame) (locals : Dict) (ret : Nat)
+    (rest : List Frame) (n : String) (v : Val) (hl : LoopsOnly loops)
+    (hs : s.stack = loops ++ .call locals ret :: rest) (hn : locals.has n = true) :
+    s.putVariable n v = { s with stack := loops ++ .call (locals.put n v) ret :: rest } := by
+  simp [State.putVariable, hs, owner_loops loops (.call locals ret) rest hl rfl, hn,
+    setActivation_loops loops locals _ ret rest hl]
+
+/-- **global_assign.**  A name that is not a parameter/local of the current call but is a
+global: the global is updated, no frame changes. -/
+theorem C03_global_assign (s : State) (loops : List Frame) (locals : Dict) (ret : Nat)
+    (rest : List Frame) (n : String) (v : Val) (hl : LoopsOnly loops)
+    (hs : s.stack = loops ++ .call locals ret :: rest) (hn : locals.has n = false)
+    (hg : s.globals.has n = true) :
+    s.putVariable n v = { s with globals := s.globals.put n v } := by
+  simp [State.putVariable, hs, owner_loops loops (.call locals ret) rest hl rfl, hn, hg]
+
+/-- **new_name_is_local.**  Any other name becomes a new entry of the current call's
+dictionary (and so disappears with the frame on return); callers and globals untouched. -/
+theorem C03_new_name_is_local (s : State) (loops : List Frame) (locals : Dict) (ret : Nat)
+    (rest : List Frame) (n : String) (v : Val) (hl : LoopsOnly loops)
+    (hs : s.stack = loops ++ .call locals ret :: rest) (hn : locals.has n = false)
+    (hg : s.globals.has n = false) :
+    s.putVariable n v = { s with stack := loops ++ .call (locals ++ [(n, v)]) ret :: rest } := by
+  have hput : locals.put n v = locals ++ [(n, v)] := by
+    have : locals.any (·.1 == n) = false := hn
+    simp [Dict.put, this]
+  simp [State.putVariable, hs, owner_loops loops (.call locals ret) rest hl rfl, hn, hg,
+    setActivation_loops loops locals _ ret rest hl, hput]
+
+/-- at top level (no call frame, any number of loop frames) every assignment is to a global -/
+theorem C03_toplevel_assign (s : State) (n : String) (v : Val) (hl : LoopsOnly s.stack) :
+    s.putVariable n v = { s with globals := s.globals.put n v } := by
+  simp [State.putVariable, owner_only_loops s.stack hl]
+
+/-- in all three cases the caller's frames and all registers survive an assignment made inside
+the callee, at any loop depth -/
+theorem C03_assign_keeps_callers (s : State) (loops : List Frame) (locals : Dict) (ret : Nat)
+    (rest : List Frame) (n : String) (v : Val) (hl : LoopsOnly loops)
+    (hs : s.stack = loops ++ .call locals ret :: rest) :
+    ∃ locals', (s.putVariable n v).stack = loops ++ .call locals' ret :: rest ∧
+      (s.putVariable n v).regs = s.regs ∧ (s.putVariable n v).eval = s.eval ∧
+      (s.putVariable n v).status = s.status ∧ (s.putVariable n v).pc = s.pc ∧
+      ((s.putVariable n v).globals = s.globals ∨ (locals.has n = false ∧ s.globals.has n = true)) := by
+  by_cases hn : locals.has n = true
+  · rw [C03_param_private s loops locals ret rest n v hl hs hn]
+    exact ⟨_, rfl, rfl, rfl, rfl, rfl, .inl rfl⟩
+  · have hn : locals.has n = false := by simpa using hn
+    by_cases hg : s.globals.has n = true
+    · rw [C03_global_assign s loops locals ret rest n v hl hs hn hg]
+      exact ⟨_, hs, rfl, rfl, rfl, rfl, .inr ⟨hn, hg⟩⟩
+    · have hg : s.globals.has n = false := by simpa using hg
+      rw [C03_new_name_is_local s loops locals ret rest n v hl hs hn hg]
+      exact ⟨_, rfl, rfl, rfl, rfl, rfl, .inl rfl⟩
+
+/-- **param_hides_global.**  Under any number of loop frames a parameter/local is what its
+name denotes, whatever the globals hold (macros/constants are resolved before, at compile
+time, and can never be assigned; `hc` says no constant of that name exists). -/
+theorem C03_param_hides_global (s : State) (loops : List Frame) (locals : Dict) (ret : Nat)
+    (rest : List Frame) (n : String) (x : Val) (hl : LoopsOnly loops)
+    (hs : s.stack = loops ++ .call locals ret :: rest) (hc : s.constants.get n = none)
+    (hn : locals.get n = some x) : s.getVariable n = x := by
+  simp [State.getVariable, hc, hs, activation_loops loops locals ret rest hl, hn]
+
+theorem C03_param_hides_global' (s : State) (loops : List Frame) (locals : Dict) (ret : Nat)
+    (rest : List Frame) (n : String) (hl : LoopsOnly loops)
+    (hs : s.stack = loops ++ .call locals ret :: rest) (hc : s.constants.get n = none)
+    (hn : locals.has n = true) : ∃ x, locals.get n = some x ∧ s.getVariable n = x := by
+  obtain ⟨x, hx⟩ := (Dict.has_iff_get locals n).1 hn
+  exact ⟨x, hx, C03_param_hides_global s loops locals ret rest n x hl hs hc hx⟩
+
+/-- a name that is not local falls through to the global -/
+theorem C03_nonlocal_reads_global (s : State) (loops : List Frame) (locals : Dict) (ret : Nat)
+    (rest : List Frame) (n : String) (hl : LoopsOnly loops)
+    (hs : s.stack = loops ++ .call locals ret :: rest) (hc : s.constants.get n = none)
+    (hn : locals.get n = none) : s.getVariable n = (s.globals.get n).getD .none := by
+  simp [State.getVariable, hc, hs, activation_loops loops locals ret rest hl, hn]
+
+/-- assignment to a parameter then reading it, at any loop depth: the new value is read back,
+and the global of the same name still holds what it held -/
+theorem C03_param_assign_then_read (s : State) (loops : List Frame) (locals : Dict) (ret : Nat)
+    (rest : List Frame) (n : String) (v : Val) (hl : LoopsOnly loops)
+    (hs : s.stack = loops ++ .call locals ret :: rest) (hc : s.constants.get n = none)
+    (hn : locals.has n = true) :
+    (s.putVariable n v).getVariable n = v ∧ (s.putVariable n v).globals = s.globals := by
+  rw [C03_param_private s loops locals ret rest n v hl hs hn]
+  refine ⟨?_, rfl⟩
+  exact C03_param_hides_global _ loops (locals.put n v) ret rest n v hl rfl hc
+    (Dict.get_put_self locals n v)
+
+/-! ## 5. nested activations have separate dictionaries -/
+
+/-- the dictionaries of the entered call frames of a stack, top first -/
+def callDicts : List Frame → List Dict
+  | [] => []
+  | .call d _ :: rest => d :: callDicts rest
+  | _ :: rest => callDicts rest
+
+theorem callDicts_loops (loops : List Frame) (rest : List Frame) (hl : LoopsOnly loops) :
+    callDicts (loops ++ rest) = callDicts rest := by
+  induction loops with
+  | nil => rfl
+  | cons g gs ih =>
+    obtain ⟨⟨vars, ht, rfl⟩, hgs⟩ := hl.cons
+    simpa [callDicts] using ih hgs
+
+/-- **recursion_fresh.**  With any number of activations on the stack (of the same routine or
+of different ones), an assignment made in the top activation — whatever the name, at any loop
+depth — leaves the dictionary of every deeper activation exactly as it was. -/
+theorem C03_recursion_fresh (s : State) (loops : List Frame) (locals : Dict) (ret : Nat)
+    (rest : List Frame) (n : String) (v : Val) (hl : LoopsOnly loops)
+    (hs : s.stack = loops ++ .call locals ret :: rest) :
+    (callDicts (s.putVariable n v).stack).tail = callDicts rest ∧
+    (callDicts s.stack).tail = callDicts rest := by
+  obtain ⟨locals', h, _⟩ := C03_assign_keeps_callers s loops locals ret rest n v hl hs
+  rw [h, hs, callDicts_loops _ _ hl, callDicts_loops _ _ hl]
+  simp [callDicts]
+
+/-! ## 4. return from any loop depth -/
+
+/-- `EvalStack.trim h` keeps exactly the bottom `h` values -/
+theorem trimEval_bottom (top bot : List Val) : trimEval (top ++ bot) bot.length = bot := by
+  simp [trimEval]
+
+/-- return with no enclosing loop frame -/
+theorem C03_return_depth0 (s : State) (locals : Dict) (ret : Nat) (rest : List Frame)
+    (hs : s.stack = .call locals ret :: rest) :
+    s.doReturn = { s with stack := rest, pc := ret } := by
+  simp [State.doReturn, hs, popLoops, unwindHeight]
+
+/-- return from under `inner.length + 1` loop frames, the outermost of which recorded the
+evaluation-stack height `h` -/
+theorem C03_return_depth_pos (s : State) (inner : List Frame) (vars : List (LoopVar × Val))
+    (h : Nat) (locals : Dict) (ret : Nat) (rest : List Frame) (hl : LoopsOnly inner)
+    (hs : s.stack = inner ++ .loop vars h :: .call locals ret :: rest) :
+    s.doReturn = { s with stack := rest, pc := ret, eval := trimEval s.eval h } := by
+  have hl' : LoopsOnly (inner ++ [.loop vars h]) := by
+    intro f hf
+    rcases List.mem_append.1 hf with hf | hf
+    · exact hl f hf
+    · simp at hf; subst hf; rfl
+  have hp := popLoops_loops (inner ++ [.loop vars h]) (.call locals ret) rest hl' rfl
+  simp only [List.append_assoc, List.singleton_append] at hp
+  simp [State.doReturn, hs, hp, unwindHeight_loops inner vars h (.call locals ret) rest hl rfl]
+
+/-- **return_any_depth.**  `RETURN` under `d = loops.length ≥ 0` loop frames pops exactly those
+frames and the call frame, continues at the recorded return address, keeps the machine's
+status, restores the evaluation stack to the height it had when the outermost of those loops
+was entered (unchanged if `d = 0`), and leaves the caller's frames `rest` (its loop records and
+locals), the globals, the registers (so the value placed in `result`), the trace and
+everything else exactly as they were. -/
+theorem C03_return_any_depth (s : State) (loops : List Frame) (locals : Dict) (ret : Nat)
+    (rest : List Frame) (hl : LoopsOnly loops)
+    (hs : s.stack = loops ++ .call locals ret :: rest) :
+    s.doReturn = { s with
+      stack := rest, pc := ret,
+      eval := match loops.getLast? with
+        | some (.loop _ h) => trimEval s.eval h
+        | _ => s.eval } := by
+  rcases List.eq_nil_or_concat loops with rfl | ⟨inner, f, hcat⟩
+  · simpa using C03_return_depth0 s locals ret rest hs
+  · rw [List.concat_eq_append] at hcat
+    subst hcat
+    have hf := hl f (by simp)
+    have hinner : LoopsOnly inner := fun g hg => hl g (by simp [hg])
+    cases f with
+    | loop vars h =>
+      have hg : (inner ++ [Frame.loop vars h]).getLast? = some (.loop vars h) := by simp
+      rw [hg]
+      exact C03_return_depth_pos s inner vars h locals ret rest hinner (by simpa using hs)
+    | _ => simp [Frame.isLoop] at hf
+
+/-- spelled out by component -/
+theorem C03_return_any_depth_fields (s : State) (loops : List Frame) (locals : Dict) (ret : Nat)
+    (rest : List Frame) (hl : LoopsOnly loops)
+    (hs : s.stack = loops ++ .call locals ret :: rest) :
+    s.doReturn.stack = rest ∧ s.doReturn.pc = ret ∧ s.doReturn.status = s.status ∧
+    s.doReturn.globals = s.globals ∧ s.doReturn.constants = s.constants ∧
+    s.doReturn.regs = s.regs ∧ s.doReturn.trace = s.trace ∧
+    (loops = [] → s.doReturn.eval = s.eval) := by
+  rw [C03_return_any_depth s loops locals ret rest hl hs]
+  refine ⟨rfl, rfl, rfl, rfl, rfl, rfl, rfl, ?_⟩
+  rintro rfl; rfl
+
+/-! ## 2. the calling sequence -/
+
+theorem step_moveq_result (img : Image) (s : State) (pc : Nat) (v : Val)
+    (hs : s.status = .running) (hpc : s.pc = (pc : Int))
+    (hi : img.code[pc]? = some (.moveq v (.reg .result))) :
+    step img s = { s with pc := (pc : Int) + 1, regs := fun r => if r = .result then v else s.regs r } := by
+  rw [step_plain img s pc _ hs hpc hi (by simp) rfl]
+  · simp [execInstr, State.put, State.setReg, hpc]
+  · simp [execInstr, State.put, State.setReg, hs]
+
+theorem step_move_result (img : Image) (s : State) (pc : Nat) (src : Src)
+    (hs : s.status = .running) (hpc : s.pc = (pc : Int))
+    (hi : img.code[pc]? = some (.move src (.reg .result))) :
+    step img s = { s with pc := (pc : Int) + 1,
+                          regs := fun r => if r = .result then s.read src else s.regs r } := by
+  rw [step_plain img s pc _ hs hpc hi (by simp) rfl]
+  · simp [execInstr, State.put, State.setReg, hpc]
+  · simp [execInstr, State.put, State.setReg, hs]
+
+theorem step_param (img : Image) (s : State) (pc : Nat) (p : String) (src : Src) (d : Dict)
+    (st : List Frame)
+    (hs : s.status = .running) (hpc : s.pc = (pc : Int)) (hst : s.stack = .pending d :: st)
+    (hi : img.code[pc]? = some (.param p src)) :
+    step img s = { s with pc := (pc : Int) + 1, stack := .pending (d.put p (s.read src)) :: st } := by
+  rw [step_plain img s pc _ hs hpc hi (by simp) rfl]
+  · simp [execInstr, hst, hpc]
+  · simp [execInstr, hst, hs]
+
+theorem step_ctx (img : Image) (s : State) (pc : Nat)
+    (hs : s.status = .running) (hpc : s.pc = (pc : Int))
+    (hi : img.code[pc]? = some .ctx) :
+    step img s = { s with pc := (pc : Int) + 1, stack := .pending [] :: s.stack } := by
+  rw [step_plain img s pc _ hs hpc hi (by simp) rfl]
+  · simp [execInstr, hpc]
+  · simp [execInstr, hs]
+
+theorem step_jsr (img : Image) (s : State) (pc : Nat) (f : String) (addr : Nat) (d : Dict)
+    (st : List Frame)
+    (hs : s.status = .running) (hpc : s.pc = (pc : Int)) (hst : s.stack = .pending d :: st)
+    (hf : img.routine? f = some addr)
+    (hi : img.code[pc]? = some (.jsr f)) :
+    step img s = { s with pc := (addr : Int), stack := .call d (pc + 1) :: st } := by
+  unfold step
+  have h0 : ¬ (s.pc < 0) := by omega
+  have h1 : s.pc.toNat = pc := by omega
+  rw [if_neg (by simp [hs]), if_neg h0, h1, hi]
+  have : ((pc : Int) + 1).toNat = pc + 1 := by omega
+  simp [execInstr, hst, hf, hs, hpc, this]
+
+/-- argument forms that need no evaluation code of their own: a literal, a variable, a
+register -/
+inductive SimpleArg : Rv → Prop
+  | lit (v : Val) : SimpleArg (.lit v)
+  | var (n : String) : SimpleArg (.var n)
+  | reg (r : Reg) : SimpleArg (.reg r)
+
+inductive SimpleArgs : Args → Prop
+  | nil : SimpleArgs .nil
+  | cons {a : Rv} {rest : Args} : SimpleArg a → SimpleArgs rest → SimpleArgs (.cons a rest)
+
+/-- value of a simple argument in state `s`; `res` is the current content of the `result`
+register, through which every argument passes (`s.regs .result` for the first argument, the
+previous argument's value afterwards — only an argument that is the `result` register itself
+can tell) -/
+def argVal (s : State) (res : Val) : Rv → Val
+  | .lit v => v
+  | .var n => s.getVariable n
+  | .reg r => if r = .result then res else s.regs r
+  | _ => .none
+
+/-- the callee's dictionary built by `PARAM`: later duplicates override as `Dict.put` does -/
+def bindArgs (s : State) : Val → List String → Args → Dict → Dict
+  | res, p :: ps, .cons a rest, d => bindArgs s (argVal s res a) ps rest (d.put p (argVal s res a))
+  | _, _, _, d => d
+
+/-- what the `result` register holds after the argument phase -/
+def lastRes (s : State) : Val → List String → Args → Val
+  | res, _ :: ps, .cons a rest => lastRes s (argVal s res a) ps rest
+  | res, _, _ => res
+
+/-- one argument: `⟦a⟧ → RESULT; PARAM p RESULT` -/
+theorem run_one_param (img : Image) (s0 : State) (p : String) (a : Rv) (ha : SimpleArg a)
+    (t : State) (pc : Nat) (d : Dict) (st : List Frame)
+    (hs : t.status = .running) (hpc : t.pc = (pc : Int)) (hst : t.stack = .pending d :: st)
+    (hv : ∀ n, t.getVariable n = s0.getVariable n)
+    (hr : ∀ r, r ≠ .result → t.regs r = s0.regs r)
+    (hc : CodeAt img pc (Gen.genRv a (.to Gen.result) ++ [.param p (.reg .result)])) :
+    run img (Gen.genRv a (.to Gen.result) ++ [Instr.param p (.reg .result)]).length t =
+      { t with pc := (pc : Int) + (Gen.genRv a (.to Gen.result) ++ [Instr.param p (.reg .result)]).length,
+               stack := .pending (d.put p (argVal s0 (t.regs .result) a)) :: st,
+               regs := fun r => if r = .result then argVal s0 (t.regs .result) a else t.regs r } := by
+  cases ha with
+  | lit v =>
+    simp only [Gen.genRv, Gen.result, List.cons_append, List.nil_append, List.length_cons,
+      List.length_nil] at hc ⊢
+    rw [run_succ _ _ _ hs, step_moveq_result img t pc v hs hpc hc.head]
+    rw [run_one _ _ (by exact hs), step_param img _ (pc + 1) p _ d st (by exact hs) (by simp) (by exact hst) (hc.tail.head)]
+    apply State.ext' <;> simp [State.read, argVal]
+    omega
+  | var n =>
+    simp only [Gen.genRv, Gen.result, List.cons_append, List.nil_append, List.length_cons,
+      List.length_nil] at hc ⊢
+    rw [run_succ _ _ _ hs, step_move_result img t pc _ hs hpc hc.head]
+    rw [run_one _ _ (by exact hs), step_param img _ (pc + 1) p _ d st (by exact hs) (by simp) (by exact hst) (hc.tail.head)]
+    apply State.ext' <;> simp [State.read, argVal, hv]
+    omega
+  | reg r =>
+    by_cases h : r = .result
+    · subst h
+      simp only [Gen.genRv, Gen.result, if_true, List.nil_append, List.length_cons,
+        List.length_nil] at hc ⊢
+      rw [run_one _ _ hs, step_param img _ pc p _ d st hs hpc hst hc.head]
+      apply State.ext' <;> simp [State.read, argVal]
+      funext r; split <;> simp_all
+    · have h' : ¬ (Dst.reg Reg.result = Dst.reg r) := by
+        intro hh; injection hh with hh; exact h hh.symm
+      simp only [Gen.genRv, Gen.result, if_neg h', List.cons_append, List.nil_append,
+        List.length_cons, List.length_nil] at hc ⊢
+      rw [run_succ _ _ _ hs, step_move_result img t pc _ hs hpc hc.head]
+      rw [run_one _ _ (by exact hs), step_param img _ (pc + 1) p _ d st (by exact hs) (by simp) (by exact hst) (hc.tail.head)]
+      apply State.ext' <;> simp [State.read, argVal, h, hr r h]
+      omega
+
+theorem getVariable_congr (a b : State) (n : String) (hc : a.constants = b.constants)
+    (hg : a.globals = b.globals) (ha : activation a.stack = activation b.stack) :
+    a.getVariable n = b.getVariable n := by
+  simp [State.getVariable, hc, hg, ha]
+
+/-- the whole argument phase, from a state whose top frame is the pending one -/
+theorem run_params (img : Image) (s0 : State) (as : Args) (has : SimpleArgs as) :
+    ∀ (ps : List String) (t : State) (pc : Nat) (d : Dict) (st : List Frame),
+    t.status = .running → t.pc = (pc : Int) → t.stack = .pending d :: st →
+    (∀ n, t.getVariable n = s0.getVariable n) →
+    (∀ r, r ≠ .result → t.regs r = s0.regs r) →
+    CodeAt img pc (Gen.genParams ps as) →
+    run img (Gen.genParams ps as).length t =
+      { t with pc := (pc : Int) + (Gen.genParams ps as).length,
+               stack := .pending (bindArgs s0 (t.regs .result) ps as d) :: st,
+               regs := fun r => if r = .result then lastRes s0 (t.regs .result) ps as
+                                else t.regs r } := by
+  induction has with
+  | nil =>
+    intro ps t pc d st hs hpc hst hv hr hc
+    have : Gen.genParams ps .nil = [] := by cases ps <;> simp [Gen.genParams]
+    rw [this]
+    have hb : bindArgs s0 (t.regs .result) ps .nil d = d := by cases ps <;> simp [bindArgs]
+    have hl : lastRes s0 (t.regs .result) ps .nil = t.regs .result := by cases ps <;> simp [lastRes]
+    rw [hb, hl]
+    apply State.ext' <;> simp [run, hpc, hst]
+    funext r; split <;> simp_all
+  | @cons a rest ha hrest ih =>
+    intro ps t pc d st hs hpc hst hv hr hc
+    cases ps with
+    | nil =>
+      simp only [Gen.genParams, bindArgs, lastRes]
+      apply State.ext' <;> simp [run, hpc, hst]
+      funext r; split <;> simp_all
+    | cons p ps =>
+      simp only [Gen.genParams, bindArgs, lastRes] at hc ⊢
+      rw [List.length_append, run_add,
+        run_one_param img s0 p a ha t pc d st hs hpc hst hv hr hc.left]
+      have hc2 := hc.right
+      rw [ih ps _ _ _ st (by exact hs) (by simp) rfl
+        (fun n => by
+          rw [← hv n]
+          exact getVariable_congr _ t n rfl rfl (by simp [hst, activation]))
+        (fun r hr' => by simp [hr', hr r hr']) hc2]
+      apply State.ext' <;> simp
+      · omega
+      · funext r; split <;> simp_all
+
+theorem genCall_length (f : String) (ps : List String) (as : Args) :
+    (Gen.genCall f ps as).length = (Gen.genParams ps as).length + 3 := by
+  simp [Gen.genCall]
+
+/-- **call_sequence.**  From ANY running state `s` (any stack, any loop nesting) whose code at
+`pc` is the calling sequence `CTX; (⟦argᵢ⟧→RESULT; PARAM pᵢ RESULT)*; JSR f; END_CTX` of a user
+routine `f` with simple arguments, after exactly `length - 1` steps (everything but the
+`END_CTX`, which is where the callee returns to) the machine is at the routine's entry with ONE
+new frame on top of the unchanged stack `s.stack`: an entered call frame whose dictionary binds
+each `pᵢ` to the value of `argᵢ` as read in `s` (`bindArgs s …`, built by `Dict.put` from the
+empty dictionary) and whose return address is the `END_CTX`.  Globals, constants, the
+evaluation stack, the trace, the status and every register except `result` are those of `s`. -/
+theorem C03_call_sequence (img : Image) (s : State) (pc : Nat) (f : String) (addr : Nat)
+    (ps : List String) (as : Args) (has : SimpleArgs as)
+    (hs : s.status = .running) (hpc : s.pc = (pc : Int)) (hf : img.routine? f = some addr)
+    (hc : CodeAt img pc (Gen.genCall f ps as)) :
+    run img ((Gen.genCall f ps as).length - 1) s =
+      { s with pc := (addr : Int),
+               stack := .call (bindArgs s (s.regs .result) ps as [])
+                          (pc + (Gen.genCall f ps as).length - 1) :: s.stack,
+               regs := fun r => if r = .result then lastRes s (s.regs .result) ps as
+                                else s.regs r } ∧
+    img.code[pc + (Gen.genCall f ps as).length - 1]? = some .endCtx := by
+  have hlen := genCall_length f ps as
+  have hend : img.code[pc + (Gen.genCall f ps as).length - 1]? = some .endCtx := by
+    have := hc ((Gen.genParams ps as).length + 2) (by omega)
+    have e : pc + (Gen.genCall f ps as).length - 1 = pc + ((Gen.genParams ps as).length + 2) := by
+      omega
+    rw [e, this]
+    simp [Gen.genCall]
+  refine ⟨?_, hend⟩
+  have e : (Gen.genCall f ps as).length - 1 = 1 + ((Gen.genParams ps as).length + 1) := by omega
+  rw [e, run_add, run_add]
+  simp only [Gen.genCall] at hc
+  have hctx : img.code[pc]? = some .ctx := by
+    have := hc.left.left
+    exact this.head
+  have hpar : CodeAt img (pc + 1) (Gen.genParams ps as) := by
+    have := hc.left.right
+    simpa using this
+  have hjsr : img.code[pc + 1 + (Gen.genParams ps as).length]? = some (.jsr f) := by
+    have := hc.right
+    simp only [List.length_append, List.length_cons, List.length_nil] at this
+    have := this.head
+    rw [← this]; congr 1; omega
+  rw [run_one _ _ hs, step_ctx img s pc hs hpc hctx]
+  rw [run_params img s as has ps _ (pc + 1) [] s.stack (by exact hs) (by simp) (by rfl)
+    (by intro n; rfl) (by intro r _; rfl) hpar]
+  rw [run_one _ _ (by exact hs),
+    step_jsr img _ (pc + 1 + (Gen.genParams ps as).length) f addr _ s.stack (by exact hs)
+      (by simp) rfl hf hjsr]
+  apply State.ext' <;> simp
+  omega
+
+/-- the `Src` a simple argument is read from -/
+def Rv.src : Rv → Src
+  | .lit v => .lit v
+  | .var n => .var n
+  | .reg r => .reg r
+  | _ => .lit .none
+
+/-- the callee's dictionary with every argument READ IN THE ORIGINAL STATE `s` -/
+def bindRead (s : State) : List String → Args → Dict → Dict
+  | p :: ps, .cons a rest, d => bindRead s ps rest (d.put p (s.read a.src))
+  | _, _, d => d
+
+/-- no argument is the `result` register itself (the register every argument passes through;
+it is not nameable in a script) -/
+def NoResultReg : Args → Prop
+  | .nil => True
+  | .cons a rest => a ≠ .reg .result ∧ NoResultReg rest
+
+theorem bindArgs_eq_bindRead (s : State) (as : Args) (has : SimpleArgs as) :
+    ∀ (_ : NoResultReg as) (res : Val) (ps : List String) (d : Dict),
+      bindArgs s res ps as d = bindRead s ps as d := by
+  induction has with
+  | nil => intro _ res ps d; cases ps <;> simp [bindArgs, bindRead]
+  | @cons a rest ha _ ih =>
+    intro hn res ps d
+    cases ps with
+    | nil => simp [bindArgs, bindRead]
+    | cons p ps =>
+      have hv : argVal s res a = s.read a.src := by
+        cases ha with
+        | lit v => rfl
+        | var n => rfl
+        | reg r =>
+          have : r ≠ .result := fun h => hn.1 (by rw [h])
+          simp [argVal, Rv.src, State.read, this]
+      simp only [bindArgs, bindRead, hv]
+      exact ih hn.2 _ ps _
+
+/-- **call_sequence**, with the arguments read in the original state: each `pᵢ` is bound to
+`s.read argᵢ` — the variable, register or literal as it was BEFORE the `CTX`, whatever names
+the callee's parameters have. -/
+theorem C03_call_sequence_original_state (img : Image) (s : State) (pc : Nat) (f : String)
+    (addr : Nat) (ps : List String) (as : Args) (has : SimpleArgs as) (hn : NoResultReg as)
+    (hs : s.status = .running) (hpc : s.pc = (pc : Int)) (hf : img.routine? f = some addr)
+    (hc : CodeAt img pc (Gen.genCall f ps as)) :
+    let s' := run img ((Gen.genCall f ps as).length - 1) s
+    s'.pc = addr ∧
+    s'.stack = .call (bindRead s ps as []) (pc + (Gen.genCall f ps as).length - 1) :: s.stack ∧
+    s'.globals = s.globals ∧ s'.constants = s.constants ∧ s'.eval = s.eval ∧
+    s'.status = .running ∧ s'.trace = s.trace ∧ (∀ r, r ≠ .result → s'.regs r = s.regs r) := by
+  intro s'
+  have h := (C03_call_sequence img s pc f addr ps as has hs hpc hf hc).1
+  have hs' : s' = _ := h
+  rw [hs', bindArgs_eq_bindRead s as has hn]
+  refine ⟨rfl, rfl, rfl, rfl, rfl, hs, rfl, ?_⟩
+  intro r hr; simp [hr]
+
+/-! ## non-vacuity: concrete states satisfying the hypotheses -/
+
+section Examples
+
+/-- two loop frames over an activation of `f` over another activation of `f` (recursion), with
+a global `x` hidden by the parameter `x` -/
+def c03ExState : State :=
+  { regs := initRegs
+    stack := [.loop [] 3, .loop [(.counter, .int 2)] 1,
+              .call [("x", .int 1)] 7, .loop [] 0, .call [("x", .int 5)] 3]
+    globals := [("x", .int 9), ("g", .int 2)]
+    eval := [.int 10, .int 20, .int 30, .int 40] }
+
+example : LoopsOnly [Frame.loop [] 3, .loop [(.counter, .int 2)] 1] := by decide
+example : c03ExState.stack =
+    [Frame.loop [] 3, .loop [(.counter, .int 2)] 1] ++ .call [("x", .int 1)] 7 ::
+      [.loop [] 0, .call [("x", .int 5)] 3] := rfl
+example : Dict.has [("x", Val.int 1)] "x" = true := by decide
+example : Dict.has [("x", Val.int 1)] "g" = false ∧ c03ExState.globals.has "g" = true := by decide
+example : Dict.has [("x", Val.int 1)] "y" = false ∧ c03ExState.globals.has "y" = false := by decide
+example : c03ExState.constants.get "x" = none := rfl
+
+/-- the parameter `x` is assigned under two loop frames: the hidden global keeps 9, the
+recursive caller's `x` keeps 5 -/
+example : (c03ExState.putVariable "x" (.int 77)).stack =
+      [.loop [] 3, .loop [(.counter, .int 2)] 1, .call [("x", .int 77)] 7, .loop [] 0,
+       .call [("x", .int 5)] 3] ∧
+    (c03ExState.putVariable "x" (.int 77)).globals = c03ExState.globals := by
+  rw [C03_param_private c03ExState [.loop [] 3, .loop [(.counter, .int 2)] 1] [("x", .int 1)] 7
+    [.loop [] 0, .call [("x", .int 5)] 3] "x" (.int 77) (by decide) rfl (by decide)]
+  exact ⟨rfl, rfl⟩
+
+/-- `return` from under the two loop frames: back at 7, the caller's loop frame and
+activation intact, the evaluation stack cut to the height 1 recorded by the outer loop -/
+example : c03ExState.doReturn.stack = [.loop [] 0, .call [("x", .int 5)] 3] ∧
+    c03ExState.doReturn.pc = 7 ∧ c03ExState.doReturn.eval = [.int 40] := by
+  rw [C03_return_any_depth c03ExState [.loop [] 3, .loop [(.counter, .int 2)] 1] [("x", .int 1)] 7
+    [.loop [] 0, .call [("x", .int 5)] 3] (by decide) rfl]
+  exact ⟨rfl, rfl, rfl⟩
+
+/-- a calling sequence `f 5 g x` placed at address 2; the callee's parameters are named `g`
+and `x` like the variables the later arguments read -/
+def c03ExArgs : Args := .cons (.lit (.int 5)) (.cons (.var "g") (.cons (.var "x") .nil))
+def c03ExImg : Image :=
+  ⟨([Instr.nop, .nop] ++ Gen.genCall "f" ["g", "x", "z"] c03ExArgs ++ [Instr.stop]).toArray, [("f", 40)]⟩
+
+example : CodeAt c03ExImg 2 (Gen.genCall "f" ["g", "x", "z"] c03ExArgs) :=
+  CodeAt.intro [Instr.nop, .nop] (Gen.genCall "f" ["g", "x", "z"] c03ExArgs) [Instr.stop] [("f", 40)]
+example : SimpleArgs c03ExArgs := .cons (.lit _) (.cons (.var _) (.cons (.var _) .nil))
+example : NoResultReg c03ExArgs := by simp [c03ExArgs, NoResultReg]
+example : c03ExImg.routine? "f" = some 40 := by decide
+/-- the arguments are read in the caller's scope: `g` is the global 2 and `x` the caller's
+parameter 1, although the callee's first parameter — already bound to 5 — is called `g` -/
+example : bindRead c03ExState ["g", "x", "z"] c03ExArgs [] =
+    [("g", .int 5), ("x", .int 2), ("z", .int 1)] := by
+  simp [bindRead, c03ExArgs, Rv.src, State.read, State.getVariable, c03ExState, activation, Dict.get,
+    Dict.put]
+
+/-- the theorem applied: eight steps from address 2 enter `f` at 40 with return address 10 (the
+`END_CTX`) on top of the untouched stack -/
+example :
+    let s' := run c03ExImg 8 { c03ExState with pc := 2 }
+    s'.pc = 40 ∧ s'.stack = .call (bindRead c03ExState ["g", "x", "z"] c03ExArgs []) 10 :: c03ExState.stack := by
+  have h := C03_call_sequence_original_state c03ExImg { c03ExState with pc := 2 } 2 "f" 40
+    ["g", "x", "z"] c03ExArgs (.cons (.lit _) (.cons (.var _) (.cons (.var _) .nil)))
+    (by simp [c03ExArgs, NoResultReg]) rfl rfl (by decide)
+    (CodeAt.intro [Instr.nop, .nop] (Gen.genCall "f" ["g", "x", "z"] c03ExArgs) [Instr.stop] [("f", 40)])
+  have e : (Gen.genCall "f" ["g", "x", "z"] c03ExArgs).length = 9 := by
+    simp [Gen.genCall, Gen.genParams, Gen.genRv, c03ExArgs]
+  simp only [e] at h
+  exact ⟨h.1, h.2.1⟩
+
+end Examples
+
+/-! ## 6. source level -/
+
+section SemLevel
+open Sem
+
+/-- value evaluation at fuel `f` returns with the caller's locals -/
+def KeepsLocals (f : Nat) : Prop :=
+  (∀ e s v s', evalExpr f e s = .ok (v, s') → s'.locals = s.locals) ∧
+  (∀ rv s v s', evalRv f rv s = .ok (v, s') → s'.locals = s.locals) ∧
+  (∀ ps as s d s', evalArgs f ps as s = .ok (d, s') → s'.locals = s.locals) ∧
+  (∀ name ps as s v s', callRoutine f name ps as s = .ok (v, s') → s'.locals = s.locals)
+
+theorem keepsLocals_zero : KeepsLocals 0 := by
+  refine ⟨?_, ?_, ?_, ?_⟩ <;> intros <;> simp_all [evalExpr, evalRv, evalArgs, callRoutine]
+
+theorem keepsLocals_succ (f : Nat) (ih : KeepsLocals f) : KeepsLocals (f + 1) := by
+  obtain ⟨ihE, ihR, ihA, ihC⟩ := ih
+  refine ⟨?_, ?_, ?_, ?_⟩
+  · intro e s v s' h
+    cases e with
+    | lit x => simp [evalExpr] at h; rw [h.2]
+    | var n =>
+      simp only [evalExpr] at h
+      split at h <;> simp at h
+      rw [h.2]
+    | reg r =>
+      simp only [evalExpr] at h
+      split at h <;> simp at h
+      rw [h.2]
+    | call name ps as =>
+      simp only [evalExpr] at h
+      split at h
+      · rename_i v1 s1 hc
+        split at h <;> simp at h
+        rw [← h.2]; exact ihC _ _ _ _ _ _ hc
+      · simp at h
+    | un minus e =>
+      simp only [evalExpr] at h
+      split at h
+      · rename_i v1 s1 hc
+        have := ihE _ _ _ _ hc
+        split at h
+        · split at h <;> simp at h
+          rw [← h.2]; exact this
+        · simp at h; rw [← h.2]; exact this
+      · simp at h
+    | paren e => simp only [evalExpr] at h; exact ihE _ _ _ _ h
+    | bin op a b =>
+      simp only [evalExpr] at h
+      split at h
+      · simp at h
+      · rename_i x s1 ha
+        split at h
+        · simp at h
+        · rename_i y s2 hb
+          have e1 := ihE _ _ _ _ ha
+          have e2 := ihE _ _ _ _ hb
+          have : s2.locals = s.locals := e2.trans e1
+          split at h
+          · simp at h; rw [← h.2]; exact this
+          · simp at h; rw [← h.2]; exact this
+          · split at h
+            · split at h
+              · simp at h
+              · split at h <;> simp at h
+                rw [← h.2]; exact this
+            · simp at h
+          · split at h <;> simp at h
+            rw [← h.2]; exact this
+  · intro rv s v s' h
+    cases rv with
+    | lit x => simp [evalRv] at h; rw [h.2]
+    | var n => simp [evalRv] at h; rw [h.2]
+    | reg r => simp [evalRv] at h; rw [h.2]
+    | expr e => simp only [evalRv] at h; exact ihE _ _ _ _ h
+    | call name ps as => simp only [evalRv] at h; exact ihC _ _ _ _ _ _ h
+  · intro ps as s d s' h
+    cases ps with
+    | nil => simp [evalArgs] at h; rw [h.2]
+    | cons p ps =>
+      cases as with
+      | nil => simp [evalArgs] at h; rw [h.2]
+      | cons a rest =>
+        simp only [evalArgs] at h
+        split at h
+        · simp at h
+        · rename_i v1 s1 h1
+          split at h
+          · simp at h
+          · rename_i d2 s2 h2
+            simp at h
+            rw [← h.2, ihA _ _ _ _ _ h2, ihR _ _ _ _ h1]
+  · intro name ps as s v s' h
+    simp only [callRoutine] at h
+    split at h
+    · simp at h
+    · rename_i args s1 h1
+      have e1 := ihA _ _ _ _ _ h1
+      split at h
+      · split at h <;> simp at h
+        · rw [← h.2]; exact e1
+        · rw [← h.2]; exact e1
+      · split at h
+        · split at h <;> simp at h
+          rw [← h.2]; exact e1
+        · simp at h
+
+theorem keepsLocals (f : Nat) : KeepsLocals f := by
+  induction f with
+  | zero => exact keepsLocals_zero
+  | succ f ih => exact keepsLocals_succ f ih
+
+/-- **sem_call_restores_locals.**  At source level, for every fuel: a call that returns gives
+back the caller's locals exactly (whatever the callee assigned, to whatever names, at whatever
+loop depth and through whatever nested or recursive calls), and so does every form of value
+evaluation (`{expr}`, `[call]`, argument lists — calls nested in arguments included). -/
+theorem C03_sem_call_restores_locals (f : Nat) (name : String) (ps : List String) (as : Args)
+    (s s' : S) (v : Val) (h : callRoutine f name ps as s = .ok (v, s')) : s'.locals = s.locals :=
+  (keepsLocals f).2.2.2 name ps as s v s' h
+
+theorem C03_sem_evalExpr_keeps_locals (f : Nat) (e : Expr) (s s' : S) (v : Val)
+    (h : evalExpr f e s = .ok (v, s')) : s'.locals = s.locals := (keepsLocals f).1 e s v s' h
+
+theorem C03_sem_evalRv_keeps_locals (f : Nat) (rv : Rv) (s s' : S) (v : Val)
+    (h : evalRv f rv s = .ok (v, s')) : s'.locals = s.locals := (keepsLocals f).2.1 rv s v s' h
+
+theorem C03_sem_evalArgs_keeps_locals (f : Nat) (ps : List String) (as : Args) (s s' : S)
+    (d : Dict) (h : evalArgs f ps as s = .ok (d, s')) : s'.locals = s.locals :=
+  (keepsLocals f).2.2.1 ps as s d s' h
+
+/-- the dictionary built from the arguments has exactly the parameters as keys, in order (as
+many as there are arguments) -/
+theorem evalArgs_keys (f : Nat) : ∀ (ps : List String) (as : Args) (s s' : S) (d : Dict),
+    evalArgs f ps as s = .ok (d, s') → d.map (·.1) = ps.take as.toList.length := by
+  induction f with
+  | zero => intro ps as s s' d h; simp [evalArgs] at h
+  | succ f ih =>
+    intro ps as s s' d h
+    cases ps with
+    | nil => simp [evalArgs] at h; simp [h.1]
+    | cons p ps =>
+      cases as with
+      | nil => simp [evalArgs] at h; simp [h.1, Args.toList]
+      | cons a rest =>
+        simp only [evalArgs] at h
+        split at h
+        · simp at h
+        · rename_i v1 s1 h1
+          split at h
+          · simp at h
+          · rename_i d2 s2 h2
+            simp at h
+            rw [← h.1]
+            simp [Args.toList, ih _ _ _ _ _ h2]
+
+/-- **sem_callee_sees_only_params.**  A call of a user routine evaluates the arguments in the
+caller's state, then runs the body from a state whose locals are `some args` — a dictionary
+whose keys are exactly the parameters — with nothing of the caller's locals in it; when the
+body ends (normally or by `return` from any depth) the caller's locals are put back. -/
+theorem C03_sem_callee_sees_only_params (f : Nat) (name : String) (ps : List String) (as : Args)
+    (s s1 : S) (args : Dict) (nm : String) (rt : Routine)
+    (ha : evalArgs f ps as s = .ok (args, s1))
+    (hr : s1.routines.find? (·.1 == name) = some (nm, rt)) :
+    callRoutine (f + 1) name ps as s =
+      (match execBlock f rt.body { s1 with locals := some args, result := .none } with
+        | (.normal, s2) => .ok (s2.result, { s2 with locals := s1.locals, result := .none })
+        | (.ret, s2) => .ok (s2.result, { s2 with locals := s1.locals, result := .none })
+        | (.brk, _) => .error (.fault "break outside loop")
+        | (o, _) => .error o) ∧
+    args.map (·.1) = ps.take as.toList.length ∧ s1.locals = s.locals := by
+  refine ⟨?_, evalArgs_keys f ps as s s1 args ha, C03_sem_evalArgs_keeps_locals f ps as s s1 args ha⟩
+  simp only [callRoutine, ha, hr]
+  rfl
+
+/-- inside the callee a name resolves to a parameter if there is one, else to the global;
+the caller's locals are not consulted -/
+theorem C03_sem_callee_lookup (s1 : S) (args : Dict) (n : String)
+    (hc : s1.vm.constants.get n = none) :
+    ({ s1 with locals := some args, result := .none } : S).lookup n =
+      match args.get n with
+      | some v => v
+      | none => (s1.vm.globals.get n).getD .none := by
+  simp only [S.lookup, hc, Option.bind_some]
+  rfl
+
+/-! ### the source-level scope rules and the VM's frames agree -/
+
+/-- the semantic state and the VM state denote the same scope: same globals and constants, and
+the current call's dictionary is the nearest entered call frame's -/
+def ScopeAgree (σ : S) (s : State) : Prop :=
+  σ.vm.globals = s.globals ∧ σ.vm.constants = s.constants ∧ σ.locals = activation s.stack
+
+theorem ScopeAgree.lookup {σ : S} {s : State} (h : ScopeAgree σ s) (n : String) :
+    σ.lookup n = s.getVariable n := by
+  obtain ⟨hg, hc, hl⟩ := h
+  simp only [S.lookup, State.getVariable, hg, hc, hl]
+  rfl
+
+/-- assignment keeps the agreement, inside a routine at any loop depth … -/
+theorem C03_assign_agrees_in_call (σ : S) (s : State) (loops : List Frame) (locals : Dict)
+    (ret : Nat) (rest : List Frame) (n : String) (v : Val) (hl : LoopsOnly loops)
+    (hs : s.stack = loops ++ .call locals ret :: rest) (h : ScopeAgree σ s) :
+    ScopeAgree (σ.assign n v) (s.putVariable n v) := by
+  obtain ⟨hg, hc, hloc⟩ := h
+  rw [hs, activation_loops loops locals ret rest hl] at hloc
+  by_cases hn : locals.has n = true
+  · rw [C03_param_private s loops locals ret rest n v hl hs hn]
+    simp [ScopeAgree, S.assign, hloc, hn, hg, hc, activation_loops loops _ ret rest hl]
+  · have hn : locals.has n = false := by simpa using hn
+    by_cases hgl : s.globals.has n = true
+    · rw [C03_global_assign s loops locals ret rest n v hl hs hn hgl]
+      simp [ScopeAgree, S.assign, hloc, hn, hg, hgl, hc, hs,
+        activation_loops loops _ ret rest hl]
+    · have hgl : s.globals.has n = false := by simpa using hgl
+      have hput : locals.put n v = locals ++ [(n, v)] := by
+        have : locals.any (·.1 == n) = false := hn
+        simp [Dict.put, this]
+      rw [C03_new_name_is_local s loops locals ret rest n v hl hs hn hgl]
+      simp [ScopeAgree, S.assign, hloc, hn, hg, hgl, hc, hput,
+        activation_loops loops _ ret rest hl]
+
+/-- … and at top level -/
+theorem C03_assign_agrees_toplevel (σ : S) (s : State) (n : String) (v : Val)
+    (hl : LoopsOnly s.stack) (h : ScopeAgree σ s) :
+    ScopeAgree (σ.assign n v) (s.putVariable n v) := by
+  obtain ⟨hg, hc, hloc⟩ := h
+  rw [activation_only_loops s.stack hl] at hloc
+  rw [C03_toplevel_assign s n v hl]
+  simp [ScopeAgree, S.assign, hloc, hg, hc, activation_only_loops s.stack hl]
+
+end SemLevel
+
 end Bardolph
